@@ -9,7 +9,7 @@
    real code gives the same answers).  The full refinement statement for histories outside
    the two known classes is kept as C26_full_statement; what is proved of it is listed
    below (theorems named _partial). *)
-From NDB Require Import Base.Bytes BTree.BTree BTree.Spec BTree.Witness BTree.Leaf_proofs BTree.SingleLeaf_proofs.
+From NDB Require Import Base.Bytes BTree.BTree BTree.Spec BTree.Witness BTree.Leaf_proofs BTree.SingleLeaf_proofs BTree.Delete_proofs BTree.Chain_proofs BTree.Insert_proofs.
 
 (* ---- the full statement (NOT proved; see the _partial theorems and the manifest) ---- *)
 (* for every history outside the known classes: every operation (insert, delete, lookup, seek+scan,
@@ -57,6 +57,67 @@ Definition C26_single_leaf_partial_statement : Prop :=
 Theorem C26_single_leaf_partial : C26_single_leaf_partial_statement.
 Proof. exact single_leaf_refines. Qed.
 Print Assumptions C26_single_leaf_partial.
+
+(* equal keys allowed: a history without delete that never allocates a page (one leaf) — every insert,
+   lookup (newest entry of the key), seek+scan and reopen returns what the sorted multimap returns.
+   So inside one leaf K-C26-dups needs a delete; beyond one leaf it needs equal keys around a split.
+   Non-vacuous: single_leaf_dups_nonvacuous. *)
+Definition C26_single_leaf_dups_partial_statement : Prop :=
+  forall ops, existsb is_delete ops = false -> st_next (fst (run ops)) = bt_first_data_page + 1 ->
+    snd (run ops) = snd (s_run ops) /\ scan_all (fst (run ops)) = inl (fst (s_run ops)).
+Theorem C26_single_leaf_dups_partial : C26_single_leaf_dups_partial_statement.
+Proof. exact single_leaf_dups_no_delete. Qed.
+Print Assumptions C26_single_leaf_dups_partial.
+
+(* for EVERY state of the page heap (any shape, equal keys or not, any history): a delete that reports
+   true removed exactly one cell, that cell is the pair (k, v) in a leaf, its bytes became dead bytes of
+   that leaf, and no other page, the root and the allocator did not change; any other outcome changed
+   nothing.  (The converse — a stored pair is always found — is what K-C26-dups refutes.) *)
+Definition C26_delete_exact_statement : Prop :=
+  forall st k v,
+    match delete st k v with
+    | (st', RBool true) =>
+        exists p cells r d i,
+          hget (st_heap st) p = Some (Leaf cells r d) /\ nth_error cells i = Some (k, v) /\
+          st' = {| st_heap := hset (st_heap st) p (Leaf (remove_at i cells) r (d + leaf_cell_len k));
+                   st_next := st_next st; st_root := st_root st |}
+    | (st', _) => st' = st
+    end.
+Theorem C26_delete_exact : C26_delete_exact_statement.
+Proof. exact delete_exact. Qed.
+Print Assumptions C26_delete_exact.
+
+(* the sibling-walking cursor, for EVERY heap and any tree depth: if the right-sibling pointers from the
+   leaf the descent reached form a finite chain of leaves, seek + the callers' scan loop return the rest
+   of that leaf from the lower-bound slot followed by the cells of every following leaf (empty leaves
+   are passed, /repo ff9d0a3), and lookup is the head of that sequence if its key is the key.
+   Non-vacuous: BTree/Chain_proofs.v chain_nonvacuous (7 leaves, one of them empty). *)
+Definition C26_cursor_chain_partial_statement : Prop :=
+  forall st k p cells r d rest,
+    find_leaf depth_fuel (st_heap st) (st_root st) k = inl (Some (p, cells, r, d)) ->
+    chain (st_heap st) r rest -> (length rest <= page_fuel st)%nat ->
+    scan_from st k = inl (skipn (lower_bound cells k) cells ++ concat rest) /\
+    lookup st k = inl (match skipn (lower_bound cells k) cells ++ concat rest with
+                       | (k', v) :: _ => if bytes_eqb k' k then Some v else None
+                       | [] => None
+                       end).
+Theorem C26_cursor_chain_partial : C26_cursor_chain_partial_statement.
+Proof. exact cursor_chain. Qed.
+Print Assumptions C26_cursor_chain_partial.
+
+(* for EVERY heap and any tree depth: an insert whose target leaf (the leaf the descent reaches) has
+   room writes exactly that leaf page, the pair at the lower-bound slot (= the multimap's position when
+   the leaf is sorted, C26_leaf_insert_partial), allocates nothing, keeps the root and every other page *)
+Definition C26_insert_fits_exact_partial_statement : Prop :=
+  forall st k v p cells r d,
+    find_leaf depth_fuel (st_heap st) (st_root st) k = inl (Some (p, cells, r, d)) ->
+    leaf_can_insert cells d k = true ->
+    insert st k v =
+      ({| st_heap := hset (st_heap st) p (Leaf (insert_at (lower_bound cells k) (k, v) cells) r d);
+          st_next := st_next st; st_root := st_root st |}, RUnit).
+Theorem C26_insert_fits_exact_partial : C26_insert_fits_exact_partial_statement.
+Proof. exact insert_fits_exact. Qed.
+Print Assumptions C26_insert_fits_exact_partial.
 
 (* the insert position in a leaf (the code's lower-bound loop) is the multimap's: in front of every
    entry with key >= k, hence newest first among equal keys — for every sorted leaf, equal keys allowed *)
@@ -111,3 +172,13 @@ Definition C26_binary_search_partial_statement : Prop :=
 Theorem C26_binary_search_partial : C26_binary_search_partial_statement.
 Proof. exact bsearch_blocks. Qed.
 Print Assumptions C26_binary_search_partial.
+
+(* K-C26-dups for every key: three entries of one key, written newest-first with payloads increasing
+   in time, the oldest of them is stored but delete's binary search does not find it *)
+Definition C26_dups_delete_general_statement : Prop :=
+  forall (k : key) (v1 v2 v3 : N), v1 < v2 -> v1 < v3 ->
+    In (k, v1) [(k, v3); (k, v2); (k, v1)] /\
+    fst (bsearch (map (fun c : cell => cell_cmp c k v1) [(k, v3); (k, v2); (k, v1)])) = false.
+Theorem C26_dups_delete_general : C26_dups_delete_general_statement.
+Proof. exact dups_delete_misses_oldest. Qed.
+Print Assumptions C26_dups_delete_general.
